@@ -167,6 +167,68 @@ def random_alignment(rng, M, N):
     return a, b
 
 
+def all_alignments(M, N):
+    """Every valid alignment of [0..M-1] with [0..N-1] (Delannoy many), in a fixed order."""
+    out = []
+
+    def rec(i, j, a, b):
+        if i == M and j == N:
+            out.append((list(a), list(b)))
+            return
+        if i < M and j < N:
+            rec(i + 1, j + 1, a + [i], b + [j])
+        if i < M:
+            rec(i + 1, j, a + [i], b + ["-"])
+        if j < N:
+            rec(i, j + 1, a + ["-"], b + [j])
+
+    rec(0, 0, [], [])
+    return out
+
+
+def all_trees(h):
+    """Every valid merge order (tree matrix) for h leaves."""
+    def rec(avail, nxt):
+        if len(avail) == 1:
+            yield []
+            return
+        for m in avail:
+            for n in avail:
+                if m != n:
+                    rest = [x for x in avail if x not in (m, n)] + [nxt]
+                    for t in rec(rest, nxt + 1):
+                        yield [[m, n]] + t
+    return list(rec(list(range(h)), h))
+
+
+EXH_SETS = [[["t", "a"], ["t"], ["a", "t"]], [["t"], ["t"], ["a"]], [["t", "a"], ["t", "a", "k"]],
+            [["t"], ["a"], ["k", "a"], ["a"]], [["a", "t"], ["a", "t"], ["t"], ["k"]]]
+
+
+def exhaustive_cases():
+    """Small scope, exhaustively: a few tiny sequence sets x EVERY guide tree x EVERY sequence of answers the
+    profile aligner could give during prog_align (each answer ranges over all valid alignments)."""
+    for seqs in EXH_SETS:
+        uniq = []
+        for s in seqs:
+            if s not in uniq:
+                uniq.append(s)
+        for tree in all_trees(len(uniq)):
+            def rec(k, widths, script):
+                if k == len(tree):
+                    yield list(script)
+                    return
+                m, n = tree[k]
+                alns = all_alignments(widths[m], widths[n])
+                for idx, (a, _) in enumerate(alns):
+                    yield from rec(k + 1, widths + [len(a)], script + [idx])
+            for script in rec(0, [len(u) for u in uniq], []):
+                yield {"seqs": [list(s) for s in seqs], "as_strings": False, "method": "progressive", "tree": "given",
+                       "guide_tree": [list(r) for r in tree], "tree_seed": 0, "mode": "global", "model": "sca",
+                       "classes": True, "sonar": True, "scoredict_seed": None, "gop": -2, "scale": 0.5, "factor": 0.3,
+                       "gap_weight": 0.5, "calls": [], "stub": None, "script": script}
+
+
 def random_tree(rng, h):
     avail = list(range(h))
     nxt = h
@@ -184,8 +246,10 @@ def random_tree(rng, h):
 class Recorder:
     """Wraps the two profile aligners and Multiple.sum_of_pairs / Multiple._iter."""
 
-    def __init__(self, stub_seed):
+    def __init__(self, stub_seed, script=None):
         import lingpy.align.multiple as mm
+        self.script = script
+        self.ncalls = 0
         self.mm = mm
         self.pa = []            # (profileA, profileB, almA, almB) of the current public call
         self.sop = []           # (matrix copy, gap_weight) of the current public call
@@ -198,9 +262,14 @@ class Recorder:
         def wrapped(profileA, profileB, *args, **kw):
             pA = [list(c) for c in profileA]
             pB = [list(c) for c in profileB]
-            if self.rng is not None:
+            if self.rng is not None or self.script is not None:
                 key = (tuple(map(tuple, pA)), tuple(map(tuple, pB)))
-                if key not in self.memo:
+                if key not in self.memo and self.script is not None:
+                    alns = all_alignments(len(pA), len(pB))
+                    k = self.script[self.ncalls] if self.ncalls < len(self.script) else 0
+                    self.memo[key] = alns[k % len(alns)]
+                    self.ncalls += 1
+                elif key not in self.memo:
                     self.memo[key] = random_alignment(self.rng, len(pA), len(pB))
                 almA, almB = self.memo[key]
                 almA, almB, sim = list(almA), list(almB), 0.0
@@ -286,7 +355,9 @@ def run_impl(case):
                 else:
                     sd[a, b] = sd[b, a] if (b, a) in sd else float(r.randint(1, 5) if a == b else r.randint(-3, 4))
         kw["scoredict"] = sd
-    if case["tree"] == "custom":
+    if case["tree"] == "given":
+        kw["guide_tree"] = [[m, n, 0.0, 0.0] for m, n in case["guide_tree"]]
+    elif case["tree"] == "custom":
         probe = mm.Multiple(seqs)
         probe._set_model(rcParams[case["model"]], case["classes"], False, False, {})
         kw["guide_tree"] = random_tree(random.Random(case["tree_seed"]), probe.height)
@@ -303,7 +374,7 @@ def run_impl(case):
         return out
 
     res = {"tokens": [[tcode[t] for t in s] for s in case["seqs"]]}
-    with Recorder(case["stub"]) as rec:
+    with Recorder(case["stub"], case.get("script")) as rec:
         rec.new_call()
         msa.align(case["method"], **kw)
         res["classes"] = [[class_code(c) for c in cl] for cl in msa.classes]
